@@ -487,6 +487,16 @@ def node_features(graph, name):
         inner = stateful_ups(u2)
         if len(inner) >= 2 and any(u1 in inner for u1 in st_ups if u1 != u2):
             feats["direct-upstream-also-feeds-fan-in-upstream"] = True
+    # (5) a stateful direct upstream u1 that also feeds another direct upstream u2 which adds its own
+    #     splitter and has combined all of u1's axes away (so nothing is shared any more: the expected
+    #     iteration space is the plain outer product of u1's axes and u2's remaining axes)
+    for u2 in st_ups:
+        if not nodes[u2].get("split") or not nodes[u2].get("combine"):
+            continue
+        rem2 = [a for a, _m in res[u2].axes]
+        for u1 in st_ups:
+            if u1 != u2 and u1 in _ups(nodes[u2]) and not any(a in rem2 for a, _m in res[u1].axes):
+                feats["direct-upstream-also-feeds-resplit-upstream-that-combined-it"] = True
     return feats
 
 
@@ -576,6 +586,8 @@ def classify(graph, verdict):
         return "shared-origin:" + feats["shared-origin"][0], node, feats, sym
     if "direct-upstream-also-feeds-fan-in-upstream" in feats:
         return "direct-upstream-also-feeds-fan-in-upstream", node, feats, sym
+    if "direct-upstream-also-feeds-resplit-upstream-that-combined-it" in feats:
+        return "direct-upstream-also-feeds-resplit-upstream-that-combined-it", node, feats, sym
     return None, node, feats, sym
 
 
@@ -673,15 +685,21 @@ def short(g):
     return "; ".join(s) + " | " + ",".join(f"{k}={v}" for k, v in g["inputs"].items())
 
 
-def _run_domain(ctx, dom, graphs, ex, budget_s, stats):
-    """evaluate `graphs` (deterministic order) in chunks until done or the time budget is used up"""
+def _run_domain(ctx, dom, graphs, ex, abort_s, stats):
+    """evaluate ALL `graphs` (a fixed list that depends only on seed and tier).  `abort_s` is a
+    last-resort guard: when it is exceeded the rest is NOT silently dropped, the run is UNDECIDED."""
     import time
     from vf.core import CheckerError
 
     done = 0
-    CH = 24
+    CH = 48
     for i in range(0, len(graphs), CH):
-        if time.time() - ctx.t0 > budget_s:
+        if time.time() - ctx.t0 > abort_s:
+            dom.exhaustive = False
+            ctx.undecide(
+                f"domain:{dom.name}",
+                f"time guard ({abort_s}s) hit after {done}/{len(graphs)} cases of this domain (machine overloaded?); the case list is fixed, re-run on a less loaded machine",
+            )
             break
         chunk = graphs[i : i + CH]
         for g, v in ex.map(_pool_eval, chunk, chunksize=4):
@@ -710,17 +728,18 @@ def _run_domain(ctx, dom, graphs, ex, budget_s, stats):
             if v["verdict"] in ("mismatch", "error"):
                 if v.get("kind") == "accepted-invalid":
                     what = f"pydra produced outputs for a construction the property makes meaningless ({v['expected']}): {short(g)}"
-                    ctx.fail("accepted-inner-split-of-unequal-lengths", what, {"graph": g, "got": v["got"]}, domain=dom)
+                    ctx.fail("accepted-inner-split-of-unequal-lengths", what, {"graph_json": json.dumps(g), "got": json.dumps(v["got"])}, domain=dom)
                     continue
                 what = (
                     f"{short(g)} :: node {v['failing_node']} {v['symptom']}"
                     + (f" ({v.get('msg', '')[:80]})" if v["verdict"] == "error" else "")
                     + f" features={v['features']}"
                 )
-                case = {"graph": g, "failing_node": v["failing_node"], "symptom": v["symptom"], "features": v["features"]}
+                # graph / values as JSON text: vf.core.json_safe truncates nesting deeper than 8
+                case = {"graph_json": json.dumps(g), "graph": short(g), "failing_node": v["failing_node"], "symptom": v["symptom"], "features": v["features"]}
                 if v["verdict"] == "mismatch":
                     n0 = v["nodes"][0]
-                    case["expected"], case["got"] = {n0: v["expected"][n0]}, {n0: v["got"][n0]}
+                    case["expected"], case["got"] = json.dumps({n0: v["expected"][n0]})[:4000], json.dumps({n0: v["got"][n0]})[:4000]
                 else:
                     case["error"] = f"{v['error']}: {v['msg'][:200]} @ {v['where']}"
                 ctx.fail(v["class"], what, case, domain=dom)
@@ -743,10 +762,37 @@ def run(ctx):
     rng = random.Random(ctx.seed)
     maxlen = ctx.pick(2, 3)
     stats = {}
-    budget = ctx.pick(55, 760)
+    # The case lists below are FIXED by (tier, seed): count-bounded, never time-bounded.  `abort` is a
+    # last-resort guard only (-> UNDECIDED, exit 2), sized well above the expected run time
+    # (quick: ~25 s idle / ~100 s at 4x load; thorough: ~2 min idle / ~8 min at 4x load).
+    abort = ctx.pick(300, 870)
+
+    # 1. named shapes
+    sg = [g for _l, g in shape_graphs(maxlen, all_vectors=ctx.thorough)]
+    # 2. every graph with <= 2 nodes (grammar of gen_graphs), lists of length 2
+    small = []
+    for k in (1, 2):
+        small += [g for g in gen_graphs(k, {"x": 2, "y": 2, "z": 2}, rich=False, allow_wf=ctx.thorough) if useful(g)]
+    # 3. seeded random walk over the same grammar, 3..4 (thorough 5) nodes, lengths 1..maxlen
+    plan = ctx.pick({3: 160, 4: 240}, {3: 600, 4: 900, 5: 500})
+    sampled, seen = [], set()
+    for k, cnt in plan.items():
+        got, tries = 0, 0
+        while got < cnt and tries < cnt * 20:
+            tries += 1
+            lens = {l: rng.randint(1, maxlen) if rng.random() < 0.3 else 2 for l in LISTS}
+            g = random_graph(rng, k, lens, rich=ctx.thorough, allow_wf=True)
+            if g is None:
+                continue
+            key = graph_key(g)
+            if key in seen:
+                continue
+            seen.add(key)
+            sampled.append(g)
+            got += 1
+    rng.shuffle(sampled)
+
     with cf.ProcessPoolExecutor(max_workers=12, mp_context=mp.get_context("spawn"), initializer=_pool_init) as ex:
-        # 1. named shapes, every length vector
-        sg = [g for _l, g in shape_graphs(maxlen, all_vectors=ctx.thorough)]
         d1 = ctx.domain(
             "named-shapes",
             bound=f"{len(shapes())} hand-named graph shapes (chain, fan-in, fan-out, triangle, diamond, re-split, combiners on source/intermediate/final nodes, nested workflow) x "
@@ -754,14 +800,7 @@ def run(ctx):
             rule="distinct by (graph, input lists); non-trivial = a split upstream node feeds a downstream node",
             exhaustive=True,
         )
-        sg.sort(key=lambda g: (-min(len(v) for v in g["inputs"].values()), -sum(len(v) for v in g["inputs"].values())))  # uniform length-2 instances first
-        n1 = _run_domain(ctx, d1, sg, ex, 0.5 * budget, stats)
-        if n1 < len(sg):
-            d1.exhaustive = False
-        # 2. every graph with <= 2 nodes (grammar of gen_graphs), lists of length 2
-        small = []
-        for k in (1, 2):
-            small += [g for g in gen_graphs(k, {"x": 2, "y": 2, "z": 2}, rich=False, allow_wf=ctx.thorough) if useful(g)]
+        n1 = _run_domain(ctx, d1, sg, ex, abort, stats)
         d2 = ctx.domain(
             "all-graphs-up-to-2-nodes",
             bound="every graph of <= 2 nodes of the generator grammar (node = P1 | P2"
@@ -770,44 +809,23 @@ def run(ctx):
             rule="distinct by canonical JSON of (nodes, inputs); non-trivial = a split upstream node feeds a downstream node",
             exhaustive=True,
         )
-        import time as _t
-
-        cap = (_t.time() - ctx.t0) + 0.35 * max(0.0, budget - (_t.time() - ctx.t0))  # at most 35% of what is left
-        n2 = _run_domain(ctx, d2, small, ex, cap, stats)
-        if n2 < len(small):
-            d2.exhaustive = False
-        # 3. seeded random walk over the same grammar, 3..4 (thorough 5) nodes, lengths 1..maxlen
-        plan = ctx.pick({3: 150, 4: 250}, {3: 2500, 4: 3500, 5: 1500})
-        sampled, seen = [], set()
-        for k, cnt in plan.items():
-            got, tries = 0, 0
-            while got < cnt and tries < cnt * 20:
-                tries += 1
-                lens = {l: rng.randint(1, maxlen) if rng.random() < 0.3 else 2 for l in LISTS}
-                g = random_graph(rng, k, lens, rich=ctx.thorough, allow_wf=True)
-                if g is None:
-                    continue
-                key = graph_key(g)
-                if key in seen:
-                    continue
-                seen.add(key)
-                sampled.append(g)
-                got += 1
-        rng.shuffle(sampled)
+        n2 = _run_domain(ctx, d2, small, ex, abort, stats)
         d3 = ctx.domain(
             "sampled-graphs-3-to-%d-nodes" % max(plan),
-            bound=f"seeded random walk (seed {ctx.seed}) over the same grammar with {min(plan)}..{max(plan)} nodes, at most one nested workflow, split lists of length 1..{maxlen}; planned {sum(plan.values())} graphs, evaluated until the time budget ({budget}s) is used",
+            bound=f"a fixed list of {len(sampled)} distinct graphs drawn by a seeded random walk (seed {ctx.seed}) over the same grammar: "
+            + ", ".join(f"{c} with {k} nodes" for k, c in plan.items())
+            + f"; at most one nested workflow, split lists of length 1..{maxlen}",
             rule="distinct by canonical JSON of (nodes, inputs); non-trivial = a split upstream node feeds a downstream node",
             exhaustive=False,
         )
-        n3 = _run_domain(ctx, d3, sampled, ex, budget, stats)
+        n3 = _run_domain(ctx, d3, sampled, ex, abort, stats)
     ctx.note(f"evaluated: shapes {n1}/{len(sg)}, <=2 nodes {n2}/{len(small)}, sampled {n3}/{len(sampled)}")
     ctx.note(f"verdict counts: { {k: v for k, v in stats.items()} }")
 
 
 def replay(rec):
     case = rec["case"]
-    g = case["graph"]
+    g = json.loads(case["graph_json"]) if "graph_json" in case else case["graph"]
     v = evaluate(g)
     print(f"replay C03: {short(g)}\n  verdict={v['verdict']}")
     if v["verdict"] in ("mismatch", "error"):
